@@ -7,6 +7,7 @@ other fields hex), pattern lists `,`-joined (`-` empty), names `space:loc` (hex)
     lookup <k> <typ> <name> <patterns>            -> <pattern> | none
     route <stanzaNS> <name> <patterns>            -> h=<pattern> | router | nop
     children <k> <typ> <patterns> <toks> <cons>   -> `/`-joined <pattern>=<toks read> of the registered handlers that ran
+    iqdefault <typ> <name> <patterns>             -> h=<pattern> | fallback | nothing
     register <patterns> <pattern> <nil>           -> ok | panic
 -/
 namespace XmppModel.Driver.C14
@@ -60,6 +61,12 @@ def handle (args : List String) : Option String :=
     let calls := (forChildren pats k typ toks cons).filterMap fun c =>
       c.pat.map fun p => encPattern p ++ "=" ++ encToks c.view
     pure (if calls.isEmpty then "-" else "/".intercalate calls)
+  | ["iqdefault", typ, n, pats] => do
+    let typ ← field typ; let n ← decName n; let pats ← decPatterns pats
+    pure (match iqDispatch pats typ n with
+      | .handler p => "h=" ++ encPattern p
+      | .fallback => "fallback"
+      | .nothing => "nothing")
   | ["register", pats, p, nl] => do
     let pats ← decPatterns pats; let p ← decPattern p; let nl ← parseBool nl
     pure (match register pats p nl with | some _ => "ok" | none => "panic")
